@@ -1,6 +1,6 @@
 SPECIFICATION Spec
 CONSTANTS
-  Sessions = {1, 2, 3}
+  Sessions = {1, 2, 3, 4}
   PkForms = {"comp", "uncomp", "bad"}
   SigForms = {"full", "nov", "vflip", "rflip", "empty", "short", "long"}
   MaxOps = 6
